@@ -22,12 +22,12 @@ CLAIMS = {
    text='Theorems C03_uri_authority / C03_iri_authority: every string of the RFC authority language is [userinfo "@"] host [":" port] with each part in its own language, and the one-pass decomposition and the three individual scanners (user_info, host, port -- incl. find_port\'s labelled-continue loop) return exactly the ranges of those parts; C03_parts, C03_find_host, C03_find_user_info, C03_find_port at any offset of an enclosing buffer. Complete chain: grammar -> parts (factorisation by reflection) -> delimiter well-formedness -> scanners.',
    note=TB),
  'C04': dict(cat='proof', tech='Coq proof (induction over setter sequences on top of the splice refinement) + model/implementation correspondence over random mutator sequences',
-   text="Theorems C04_setter_sequences_partial and C04_mixed_sequences_partial: every finite sequence mixing the five setters, path push, path clear and whole histories of set_userinfo/set_host/set_port edits through one authority handle, with valid arguments, from any well-formed reference (whose authority is a well-formed [userinfo@]host[:port]) runs without panic in the index-level model (bounds-checked indices, checked subtraction) and ends in compose p' with p' again well-formed; C04_splice_total. Not covered by a theorem: pop, symbolic_push/append, normalize, resolve -- these are executed on the implementation (dev profile, catch_unwind, re-validation after EVERY call) and on the extracted model: partial.",
+   text="Theorems C04_setter_sequences_partial and C04_mixed_sequences_partial: every finite sequence mixing the five setters, path push, path clear and whole histories of set_userinfo/set_host/set_port edits through one authority handle, with valid arguments, from any well-formed reference (whose authority is a well-formed [userinfo@]host[:port]) runs without panic in the index-level model (bounds-checked indices, checked subtraction) and ends in compose p' with p' again well-formed; C04_setters_keep_validity_URI / _IRI: AT THE LEVEL OF THE RFC GRAMMAR, from any string of the (U/I)RI-reference language any finite sequence of the five setters with arguments valid for their component types (or removals) returns a string of the same language (38 regex-inclusion certificates for the disambiguated shapes, checked by the verified bisimulation checker); with C01 the buffer re-parses as the same type after every call; C04_splice_total. Not covered by a theorem: pop, symbolic_push/append, normalize, resolve -- these are executed on the implementation (dev profile, catch_unwind, re-validation after EVERY call) and on the extracted model: partial.",
    note=TB),
  'C05': dict(cat='proof', tech='Coq proof (scanner value lemmas + splice refinement replace_spec) + model/implementation correspondence with a relational oracle',
    text='Theorems C05_set_scheme/_authority/_path/_query/_fragment: on compose p the L0 model of each setter returns compose p\' with exactly that component replaced, all others '
         'identical, the written path related to the requested one by `permitted` (the three documented disambiguations under exactly their conditions), and p\' well-formed so that '
-        'C02 reads it back; C05_replace: tail-preserving splice for any tail length.',
+        'C02 reads it back; C05_set_path_valid_URI / C05_set_authority_valid_IRI: the same two setters at grammar level (valid parts in, valid parts out, the written path in the path language); C05_replace: tail-preserving splice for any tail length.',
    note=TB),
  'C11': dict(cat='proof', tech='Coq proof (handle invariant Inv, scanner value on the window, splice refinement) + correspondence over call sequences through one handle',
    text='Theorems C11_view, C11_set_userinfo, C11_set_host, C11_set_port (each editor: no panic, the handle invariant is re-established for the authority with exactly that sub-component replaced, before/after untouched; all branches: replace, insert with delimiter, remove with delimiter, no-op) and C11_history: ANY finite history of calls through one handle with delimiter-valid arguments keeps the invariant, so the handle always views exactly the current authority. The model carries the `end` arithmetic of the code and is compared with the implementation after every call.',
